@@ -38,6 +38,17 @@ def enum_case(tmp):
         ev.append(("msg", [1], T["CS_DRIVE_MANUAL"], [3, 0, 3, 1, x, 0, 0, 0, 0])); expect.append(("tr t0", "step=%d fwd=%d" % (spec_speed(x), 1 if x >= 128 else 0)))
     for x in range(256):
         ev.append(("msg", [1], T["BM_SPEED"], [3, 0, x, 255 - x])); expect.append(("tr t0", "kmh=%d" % (((255 - x) << 8) | x)))
+    # ordered pairs of current codes (one representative per arm of the conversion ladder and its neighbours): the reading after the
+    # second message is the second code's alone, whatever the first left behind (flags such as overcurrent / known included)
+    reps = [0, 1, 15, 16, 63, 64, 127, 128, 191, 192, 200, 250, 251, 253, 254, 255]
+    for a in reps:
+        for b in reps:
+            for x in (a, b):
+                ev.append(("msg", [1], T["BM_CURRENT"], [0, x])); expect.append(("seg g0", "pw=" + spec_current(x)))
+    for a in reps:
+        for b in reps:
+            for x in (a, b):
+                ev.append(("msg", [1], T["BOOST_DIAGNOSTIC"], [0, x])); expect.append(("bo b0", "pw=" + spec_current(x)))
     return {"cfg": c, "dir": d, "events": ev}, expect
 
 FAULT_WITNESSES = [
@@ -135,7 +146,7 @@ def run(ck):
         for k, prefix, want, line in enum_bad[:1]:
             ck.violation("conversion-table", {"property": "C07", "reason": "conversion differs from the BiDiB table", "expected": want, "getter_line": line,
                                               "event": stategen.ev_json(ecase["events"][k + 1])})
-    ck.oblige("conversion tables by complete enumeration through the real library (256 current codes x2, voltage, temperature, booster state, speed byte, measured speed: %d values)" % len(expect),
+    ck.oblige("conversion tables by complete enumeration through the real library (256 current codes x2, voltage, temperature, booster state, speed byte, measured speed; 16x16 ordered pairs of current codes x2: %d values)" % len(expect),
               ei is not None and not enum_bad, "%d wrong" % len(enum_bad))
     # the model's fault predictions, one process each
     fault_ok = 0; fault_bad = []
